@@ -25,7 +25,7 @@ Oracle (this module + lib/c20parse.py, nothing of it in the harness):
       an encoder defect, which belongs to C01/C02, is not reported here).  Tool rejection = inconclusive.
 Violation keys: fmt:<arch>:<flags>:<clause>:<mnemonic>  (arch x86|x64|a64; flags = first FormatFlags set (hex) showing it,
 `log<flags>` for logger lines, `node<flags>` / `operand` for format_node / format_operand); at most CAP keys per (arch, clause)
-are reported, keys matched by known_findings.txt do not consume the cap; totals are in the evidence.
+and CAP_SIG per kind of difference are reported, keys matched by known_findings.txt do not consume the cap; totals are in the evidence.
 
 opts: only=<mnemonic,..> (x86), forms=<regex> (a64), arch=x86|a64, budget=<seconds>, stride=<n> (x86: every n-th deviation)
 """
@@ -38,7 +38,8 @@ from lib import c20parse as P
 LEVEL = "exploration"
 SRC = "harness/c20_format.cpp"
 NWORK = 16
-CAP = 4
+CAP = 12
+CAP_SIG = 2
 FLAG_BITS = (0x1, 0x8, 0x10, 0x20, 0x40, 0x100, 0x200, 0x400)
 F_MACHINE, F_ALIASES, F_EXPLAIN, F_HEXIMM, F_HEXOFF, F_CASTS, F_POS, F_TYPE = FLAG_BITS
 F_ALL = 0x779
@@ -1360,8 +1361,10 @@ def merge(res, outs_x, outs_a, forms, known, setup, tier, flags, logflags, strid
         with open(os.path.join(dbg, "rtrej.txt"), "w") as f:
             f.write("\n".join(sorted(set(rtrej))) + "\n")
     # violations: deterministic order, cap per (arch, clause); known findings do not consume the cap
+    # A (arch, clause) pair gets at most CAP keys and every distinct KIND of difference (the detail with numbers blanked)
+    # at most CAP_SIG of them, so that a new defect is not hidden behind an already reported one of the same clause.
     known_f = runner.load_known("C20")
-    per = collections.Counter()
+    per, per_sig = collections.Counter(), collections.Counter()
     unlisted = 0
     for key in sorted(viol):
         desc, rp, n = viol[key]
@@ -1371,10 +1374,12 @@ def merge(res, outs_x, outs_a, forms, known, setup, tier, flags, logflags, strid
             continue
         p = key.split(":")
         ac = (p[1], p[3])
-        if per[ac] >= CAP:
+        sig = ac + (re.sub(r"0x[0-9a-fA-F]+|[0-9]+", "N", desc.rsplit("`: ", 1)[-1])[:90],)
+        if per[ac] >= CAP or per_sig[sig] >= CAP_SIG:
             unlisted += 1
             continue
         per[ac] += 1
+        per_sig[sig] += 1
         res.add_violation(key, desc, rp, n)
     res.count("violation_keys_total", len(viol))
     res.count("violation_keys_not_listed", unlisted)
